@@ -158,3 +158,32 @@ define void @g() {
 declare void @ext()
 @x = global i8* null
 @z = global i32 trunc (i64 sub (i64 ptrtoint (void ()* dso_local_equivalent @ext to i64), i64 ptrtoint (i8** @x to i64)) to i32)
+;;; ATOM const/expr-binary-llvm14-only-udiv
+@g = global i32 0
+@x = global i64 udiv (i64 ptrtoint (i32* @g to i64), i64 3)
+;;; ATOM const/expr-binary-llvm14-only-sdiv
+@g = global i32 0
+@x = global i64 sdiv exact (i64 ptrtoint (i32* @g to i64), i64 3)
+;;; ATOM const/expr-binary-llvm14-only-urem
+@g = global i32 0
+@x = global i64 urem (i64 ptrtoint (i32* @g to i64), i64 3)
+;;; ATOM const/expr-binary-llvm14-only-srem
+@g = global i32 0
+@x = global i64 srem (i64 ptrtoint (i32* @g to i64), i64 3)
+;;; ATOM const/expr-binary-llvm14-only-fadd
+@g = global i32 0
+@x = global double fadd (double bitcast (i64 ptrtoint (i32* @g to i64) to double), double 1.0)
+;;; ATOM const/expr-binary-llvm14-only-fsub
+@g = global i32 0
+@x = global double fsub (double bitcast (i64 ptrtoint (i32* @g to i64) to double), double 1.0)
+;;; ATOM const/expr-binary-llvm14-only-fmul
+@g = global i32 0
+@x = global double fmul (double bitcast (i64 ptrtoint (i32* @g to i64) to double), double 1.0)
+;;; ATOM const/expr-binary-llvm14-only-fdiv
+@g = global i32 0
+@x = global double fdiv (double bitcast (i64 ptrtoint (i32* @g to i64) to double), double 1.0)
+;;; ATOM const/expr-binary-llvm14-only-frem
+@g = global i32 0
+@x = global double frem (double bitcast (i64 ptrtoint (i32* @g to i64) to double), double 1.0)
+;;; ATOM const/ppc-fp128-negative-zero-low-double
+@a = global ppc_fp128 0xM3FF00000000000008000000000000000
